@@ -106,7 +106,7 @@ def _anY(ex, g, Y, name="rtcD"):
     return lambda u: L.exists(1, lambda s: L.And(Y.has(s), C(u, s)))
 
 
-@contract(f"{IDS}.line_1", props=["C01", "C02"])
+@contract(f"{IDS}.line_1", props=["C01", "C02", "C06"])
 class _(_Line):
     """line 1: sum the distribution over V minus Y"""
     returns = "expr"
@@ -117,10 +117,12 @@ class _(_Line):
             return {"type": L.F()}
         R = VSet(lambda v: L.And(a.g.N(v), L.Not(a.Y.has(v))))
         sv, oks = T.sumv(T.set_to_array(R), a.e.t)
-        return {"ranges": z3.Implies(oks, z3.And(T.ok(res.t), T.den(res.t) == sv))}
+        return {"ranges": z3.Implies(oks, z3.And(T.ok(res.t), T.den(res.t) == sv)),
+                # C06: the variables summed over are nodes of the user's graph (plain variables: no Intervention objects)
+                "ranges-are-graph-nodes": L.forall(1, lambda v: L.Implies(R.has(v), L.And(a.g.N(v), L.Not(L.is_intervention(v)))))}
 
 
-@contract(f"{IDS}.line_2", props=["C01", "C02"])
+@contract(f"{IDS}.line_2", props=["C01", "C02", "C06"])
 class _(_Line):
     """line 2: restrict to An(Y): ID(y, x & An(Y), sum_{V - An(Y)} P, G[An(Y)])"""
     allowed_raises = ("ValueError",)
@@ -141,6 +143,7 @@ class _(_Line):
             sv, oks = T.sumv(T.set_to_array(R), a.e.t)
             e2 = res.fields["estimand"].t
             out["estimand.ranges"] = z3.Implies(oks, z3.And(T.ok(e2), T.den(e2) == sv))
+            out["ranges-are-graph-nodes"] = L.forall(1, lambda v: L.Implies(R.has(v), L.And(g.N(v), L.Not(L.is_intervention(v)))))
         else:
             out["estimand.type"] = L.F()
         return out
